@@ -19,6 +19,7 @@ Theorem C12_source_literals :
   /\ [greedy_scan_descending; greedy_min_by_partial_cmp; kk2_difference; kk2_flip;
       kk_sort_descending; kk_subtract_last; kk_copy_part] = [true; true; true; true; true; true; true].
 Proof. split; exact eq_refl. Qed.
+Print Assumptions C12_source_literals.
 
 (* ---------------- Greedy ---------------- *)
 
@@ -42,6 +43,7 @@ Print Assumptions C12_lpt_choice_independent.
 (* what "sorted non-increasingly" means: sortZ_desc is the non-increasing permutation *)
 Theorem C12_sortZ_desc_spec : forall ws, Permutation (sortZ_desc ws) ws /\ descZ (sortZ_desc ws).
 Proof. exact (fun ws => conj (sortZ_perm ws) (sortZ_descZ ws)). Qed.
+Print Assumptions C12_sortZ_desc_spec.
 
 (* Greedy is total: no panic, no loop; the only error is the length mismatch *)
 Theorem C12_greedy_total : forall ws k p0,
@@ -76,15 +78,18 @@ Print Assumptions C12_kk2_residue.
 
 Theorem C12_residue_bounds : forall ws, Forall (fun w => 0 <= w) ws -> 0 <= residue ws <= maxl ws.
 Proof. exact residue_bound. Qed.
+Print Assumptions C12_residue_bounds.
 
 (* the sort used when the model is executed satisfies the contract of C12_kk *)
 Theorem C12_stable_sort_ok :
   (forall l, Permutation (sort_stable_desc l) l) /\ (forall l, descZ (wts (sort_stable_desc l))).
 Proof. exact (conj sort_stable_perm sort_stable_desc_ok). Qed.
+Print Assumptions C12_stable_sort_ok.
 
 Theorem C12_kk_mismatch : forall srt ws k p0, length ws <> length p0 ->
   kk_partition srt ws k p0 = Err (InputLenMismatch (length p0) (length ws)).
 Proof. exact kk_partition_mismatch. Qed.
+Print Assumptions C12_kk_mismatch.
 
 (* ---------------- the checkers decide the property ---------------- *)
 
@@ -96,6 +101,7 @@ Proof. exact check_greedy_ok. Qed.
 Theorem C12_lpt_is_any_run : forall ws k L, (1 <= k)%nat ->
   lpt_run (sortZ_desc ws) (repeat 0 k) L -> Permutation L (lpt ws k).
 Proof. exact lpt_is_any_run. Qed.
+Print Assumptions C12_lpt_is_any_run.
 Theorem C12_check_kk_ok : forall ws k p,
   check_kk ws k p = true <->
   (length p = length ws /\ Forall (fun x => (x < N.of_nat k)%N) p
